@@ -8,6 +8,7 @@ import (
 	"testing"
 
 	"free5gclib/nas"
+	"free5gclib/nas/nasTestpacket"
 	"free5gclib/ngap/ngapType"
 	"pgregory.net/rapid"
 	"tglib"
@@ -48,6 +49,11 @@ type c10Op struct {
 	// (TS 33.501 6.9.4). Only effective under NEA0: the emulator overwrites K_NASenc at once, so a ciphered
 	// message of the old context could not be read by the unchanged tree either.
 	ReAuth bool `json:"re_authentication_before,omitempty"`
+	// UL: before this message arrives the UE sends an uplink message through tglib.EncodeNasPduWithSecurity: "plain"
+	// (an AUTHENTICATION RESPONSE without security context, as RegisterUE sends it) or "protected" (integrity protected
+	// and ciphered under the context in use). Uplink traffic uses the uplink COUNT; the downlink estimate is not its
+	// business.
+	UL string `json:"uplink_before,omitempty"`
 }
 
 type c10Case struct {
@@ -100,6 +106,9 @@ func genC10Op(skipHeavy bool) func(t *rapid.T) c10Op {
 		}
 		if rapid.IntRange(0, 11).Draw(t, "reauth") == 5 {
 			op.ReAuth = true
+		}
+		if rapid.IntRange(0, 7).Draw(t, "uplink") == 3 {
+			op.UL = rapid.SampledFrom([]string{"plain", "plain", "protected"}).Draw(t, "uplink_kind")
 		}
 		if op.HT >= 3 && rapid.IntRange(0, 2).Draw(t, "retx") == 1 {
 			op.Retx = true
@@ -247,6 +256,7 @@ func c10Oracle0(c c10Case) (v ev.Verdict) {
 		next = c.Last + 1
 	}
 	wraps, skipAcrossWrap, ht13cipher := 0, false, false
+	wantUL := c.ULCnt
 	prevNew := false // the previous protected message carried a "new security context" header type
 	cls[fmt.Sprintf("alg NIA%d/NEA%d", c.IA, c.EA)] = true
 
@@ -286,6 +296,31 @@ func c10Oracle0(c c10Case) (v ev.Verdict) {
 				return fail(i, "reauth:counts-of-the-context-in-use-changed", "answering an authentication challenge changed the NAS COUNTs of the context in use: UL %#06x -> %#06x, DL %#06x -> %#06x (the new context only starts with the Security Mode Command)", ulBefore, g, dlBefore, h)
 			}
 			cls["re-authentication between downlink messages"] = true
+		}
+		if op.UL == "plain" || op.UL == "protected" {
+			dlBefore := ue.DLCount.Get()
+			var uerr error
+			_, site := ev.Guard(func() error {
+				if op.UL == "plain" {
+					_, uerr = tglib.EncodeNasPduWithSecurity(ue, nasTestpacket.GetAuthenticationResponse(bytes.Repeat([]byte{byte(i)}, 16), ""), nas.SecurityHeaderTypePlainNas, false, false)
+				} else {
+					_, uerr = tglib.EncodeNasPduWithSecurity(ue, nasTestpacket.GetConfigurationUpdateComplete(), nas.SecurityHeaderTypeIntegrityProtectedAndCiphered, true, false)
+				}
+				return nil
+			})
+			if site != "" || uerr != nil {
+				return fail(i, "uplink:"+op.UL+":refused", "sending a %s uplink message between downlink messages: error %v, panic at %q", op.UL, uerr, site)
+			}
+			if op.UL == "protected" {
+				wantUL = (wantUL + 1) & 0xffffff
+			}
+			if g, h := ue.ULCount.Get(), ue.DLCount.Get(); g != wantUL || h != dlBefore {
+				return fail(i, "uplink:"+op.UL+":counts", "a %s uplink message left UL NAS COUNT %#06x (want %#06x) and DL NAS COUNT %#06x (before: %#06x)", op.UL, g, wantUL, h, dlBefore)
+			}
+			cls["uplink message ("+op.UL+") between downlink messages"] = true
+			if dlBefore >= 256 {
+				cls["uplink message between downlink messages, DL overflow >= 1"] = true
+			}
 		}
 		var pdu []byte
 		used := last
@@ -443,8 +478,8 @@ func c10Oracle0(c c10Case) (v ev.Verdict) {
 		if !reflect.DeepEqual(got.GmmMessage, refMsg.GmmMessage) || !reflect.DeepEqual(got.GsmMessage, refMsg.GsmMessage) {
 			return fail(i, "fields", "%s: same octets but the returned message value differs from the plain decoding", desc)
 		}
-		if g := ue.ULCount.Get(); g != c.ULCnt {
-			return fail(i, "ulcount-touched", "%s: UL NAS COUNT changed from %#06x to %#06x", desc, c.ULCnt, g)
+		if g := ue.ULCount.Get(); g != wantUL {
+			return fail(i, "ulcount-touched", "%s: UL NAS COUNT changed from %#06x to %#06x", desc, wantUL, g)
 		}
 		if protected {
 			last, next = used, used+1
